@@ -87,7 +87,11 @@ type histWorld struct {
 	w      *world
 	init   *scanSpec
 	order  []string            // registration order of node names (the lister's order)
-	listed map[string]*v1.Node // what the lister returns
+	listed map[string]*v1.Node // what the lister returns (pristine: the state the informer was last told)
+	// the informer cache's own objects, handed to the controller by pointer: replaced only when the informer is told a new
+	// state of the node, so anything the controller writes into them survives from scan to scan like in the real cache
+	live   map[string]*v1.Node
+	liveRV map[string]string
 	pods   []*v1.Pod
 	// virtual-time bookkeeping (seconds), for the deterministic margin validator
 	vnow       float64
@@ -116,9 +120,40 @@ func (h *histWorld) shift(dSec int64, refSec int64) {
 		shiftNodeTimes(n, dSec, refSec)
 	}
 	h.w.api.mu.Unlock()
-	for _, n := range h.listed {
+	for name, n := range h.listed {
+		current := h.live[name] != nil && h.liveRV[name] == contentRV(n)
 		shiftNodeTimes(n, dSec, refSec)
+		if h.live[name] != nil {
+			shiftNodeTimes(h.live[name], dSec, refSec)
+			if current {
+				h.liveRV[name] = contentRV(n)
+			}
+		}
 	}
+}
+
+// deliver returns the cache objects for the given (pristine) listing: a node whose state the informer already holds keeps its object.
+func (h *histWorld) deliver(nodes []*v1.Node) []*v1.Node {
+	if h.live == nil {
+		h.live, h.liveRV = map[string]*v1.Node{}, map[string]string{}
+	}
+	out := make([]*v1.Node, 0, len(nodes))
+	seen := map[string]bool{}
+	for _, p := range nodes {
+		rv := contentRV(p)
+		if h.live[p.Name] == nil || h.liveRV[p.Name] != rv || seen[p.Name] {
+			h.live[p.Name], h.liveRV[p.Name] = stampRV(p), rv
+		}
+		seen[p.Name] = true
+		out = append(out, h.live[p.Name])
+	}
+	for name := range h.live {
+		if !seen[name] {
+			delete(h.live, name)
+			delete(h.liveRV, name)
+		}
+	}
+	return out
 }
 
 // syncLister: the informer catches up with the API server, except for the lagging nodes.
@@ -505,6 +540,7 @@ func runHistory(hs *histSpec) ([]histScan, error) {
 				return nil, err
 			}
 			h.vArm, h.vOut = map[string]*float64{}, map[string]*float64{}
+			h.live, h.liveRV = nil, nil // a new process starts with a fresh informer cache
 		}
 		h.syncLister(st.Lag)
 		for _, e := range st.Edits {
@@ -516,7 +552,7 @@ func runHistory(hs *histSpec) ([]histScan, error) {
 		es.Note = fmt.Sprintf("%s step %d %s", hs.Shape, k, st.Note)
 		w.spec = es
 		w.pods.pods = es.Pods
-		w.nodes.nodes = es.Nodes
+		w.nodes.nodes = h.deliver(es.Nodes)
 		ok, why := h.marginsOK(es, margin)
 		obs := w.scanOnce(false)
 		hsn := histScan{Spec: es, Obs: obs}
